@@ -30,7 +30,10 @@ PID = "C18"
 CLAUSE_TEXT = {
     "C18a_hang": "a transfer did not end (still pending at the horizon)",
     "C18a_none": "get_schedule returned nothing without raising",
-    "C18a_stale": "get_schedule returned a schedule the controller did not hold at/after the change counter it relied on",
+    "C18a_stale": "get_schedule returned a schedule the controller did not hold at/after the change counter it relied on "
+                  "(read: one it read itself; cached / expired: one cached inside / beyond the 3-minute window; "
+                  "first-fragment-unchanged: the controller's schedule differs from the one returned only after its first "
+                  "fragment - the cached fragment set was re-validated by fragment 1 alone, re-fetched or overheard)",
     "C18a_set_result": "set_schedule returned something else than the schedule written",
     "C18b_mixed": "the returned schedule is no pure version (stitched / unknown)",
     "C18c_lock_left": "zone_lock_idx still set when no transfer is in progress",
@@ -48,7 +51,7 @@ def key_of(f: tuple) -> str:
     if clause == "C18c_followup":
         return f"C18c:followup:{d1}:{d2}:{d3 or 'clean'}"  # exit : lock at the end of the main phase : what it met
     if clause == "C18a_stale":
-        return f"C18a:stale:{d1}:{d2}"
+        return f"C18a:stale:{d1}:{d2}"  # d2: read | cached | expired | first-fragment-unchanged
     if clause == "C18a_hang":
         return f"C18a:hang:{d1}@{d2}"
     return clause.replace("_", ":", 1)
@@ -344,6 +347,71 @@ def age_sweep() -> list[dict]:
     return out
 
 
+def edit_families(n_keep: int, n_ctl: int) -> tuple[list[list], list[list], dict]:
+    """Search the seeded family of irregular weekly schedules (harness/ext_c18.py fam_sched) for chains A -> B -> C of
+    single-set-point edits: `keep` = families whose first edit leaves fragment 1 byte-identical and the number of
+    fragments unchanged, `ctl` = families whose first edit changes fragment 1 (controls).  Measured, not assumed."""
+    keep, ctl, hist = [], [], {"tried": 0, "unusable": 0, "first_fragment_unchanged": 0, "first_fragment_changed": 0,
+                                 "fragment_count_changed": 0}
+    for seed in range(400):
+        for where in ("late", "early"):
+            if len(keep) >= n_keep and len(ctl) >= n_ctl:
+                return keep, ctl, hist
+            hist["tried"] += 1
+            got = X.classify_family(seed, where)
+            if got is None:
+                hist["unusable"] += 1
+                continue
+            n, sh = got
+            if n[0] != n[1]:
+                hist["fragment_count_changed"] += 1
+            elif 1 in sh[1]:
+                hist["first_fragment_unchanged"] += 1
+                if len(keep) < n_keep:
+                    keep.append([seed, where])
+            else:
+                hist["first_fragment_changed"] += 1
+                if len(ctl) < n_ctl:
+                    ctl.append([seed, where])
+    raise tlc.MachineryFailure(f"edit sweep: the family search found too few pairs: {hist}")
+
+
+def fu_to_main(h: list[list]) -> list[list]:
+    """The scenario with its follow-ups (forced fetches) made ordinary transfers of the main phase, one after the other."""
+    out = [list(e) for e in h if e[0] != "fu"]
+    tid = max([e[1] for e in out if e[0] == "start"] or [0])
+    for e in h:
+        if e[0] == "fu":
+            tid += 1
+            out.append(["start", tid, e[1], 0, 1, tid - 1, -1])
+    return out
+
+
+def edit_sweep(keep: list[list], ctl: list[list]) -> list[dict]:
+    """A zone whose (irregular, 6-7 fragment) schedule A has been fetched; one late switch-point is edited on the controller
+    (B; counter + 1; for the `keep` families fragment 1 of B has the very bytes of fragment 1 of A); the zone is fetched
+    again - forced; unforced once the cached counter has aged; unforced after the new counter was overheard; forced after a
+    second such edit.  And with B written through the library instead (set_schedule), fragment 1 of B then overheard
+    (the controller answering another device), the zone fetched again.  C18a: the result must be the controller's
+    schedule.  (No follow-ups: a forced fetch is part of the scenario itself.)"""
+    out = []
+    for fam in keep + ctl:
+        for z in (1, 2):
+            first = [["start", 1, z, 0, 0, 0, -1], ["bump", z, 0, 0, 0, 1, -1]]
+            for rest in ([["start", 2, z, 0, 1, 1, -1]],
+                         [["age", X.AGE_DEFAULT, 0, 0, 0, 1, -1], ["start", 2, z, 0, 0, 1, -1]],
+                         [["heard6", 0, 0, 0, 0, 1, -1], ["start", 2, z, 0, 0, 1, -1]],
+                         [["bump", z, 0, 0, 0, 1, -1], ["start", 2, z, 0, 1, 1, -1]]):
+                out.append({"zones": [1, 2], "fam": {str(z): fam}, "h": [list(e) for e in first + rest]})
+            for force in (1, 0):
+                h = [["start", 1, z, 0, 0, 0, -1], ["start", 2, z, 1, 0, 1, -1], ["heard", z, 1, 1, 0, 2, -1],
+                     ["start", 3, z, 0, force, 2, -1]]
+                out.append({"zones": [1, 2], "fam": {str(z): fam}, "h": h})
+            if fam is not keep[0]:
+                break  # the second zone: once
+    return out
+
+
 def _exec(sc: dict) -> tuple[dict, int, int, int]:
     fakes.quiet_logging()
     rr = X.run_scenario(sc)
@@ -426,6 +494,20 @@ def main(tier: str, replay: str | None) -> None:
     # the overheard - by then old - schedule; the repaired one (fix.stale) does not
     run_mc("MC_SchedXfer_heard.cfg", ["ResultAsOfRead"])
     run_mc("MC_SchedXfer_heard_fix.cfg")
+    # an edit that leaves the first fragment of the compressed schedule as it was (Shared <- SharedHead): the code as it is
+    # re-validates the cached fragment set by fragment 1 alone - the model returns the old schedule; the counter-example is
+    # executed on a zone with real schedules of that kind (edit_families)
+    fam_keep, fam_ctl, fam_hist = edit_families(6 if quick else 20, 3 if quick else 8)
+    run_mc("MC_SchedXfer_head.cfg", ["ResultAsOfRead"])
+    if not quick:
+        run_mc("MC_SchedXfer_head_fix.cfg")  # the whole cached set dropped when the counter has gone up: every clause
+        # ... which is not enough once a fragment is overheard: a write through the library leaves the cached fragment set
+        # as it was, an overheard first fragment with the old bytes completes it again (Schedule._handle_msg)
+        run_mc("MC_SchedXfer_head_heard.cfg", ["ResultAsOfRead"])
+    for o, sc in cand:
+        if o.startswith("MC_SchedXfer_head"):
+            sc["fam"] = {str(z): fam_keep[0] for z in sc["zones"]}
+            sc["h"] = fu_to_main(sc["h"])
     # the freshness window of the cached change counter: a gateway whose counter never expires must be refuted (the
     # clause has teeth); its counter-example is executed below with every elapsed time of AGES - on the real code, which
     # does let the counter expire, none of them may fail
@@ -501,7 +583,7 @@ def main(tier: str, replay: str | None) -> None:
     n_enum_age_total = len(enum_age)
     states += r.distinct
     trans += r.states
-    cap = 150 if quick else 6000
+    cap = 150 if quick else 2000
     if len(enum_age) > cap:
         rnd.shuffle(enum_age)
         enum_age = enum_age[:cap]
@@ -513,6 +595,7 @@ def main(tier: str, replay: str | None) -> None:
     scen += [("overheard-sweep", s) for s in overheard_sweep()]
     n_aged = spread_ages(scen)  # every ageing so far gets an elapsed time out of AGES
     scen += [("age-sweep", s) for s in age_sweep()]
+    scen += [("edit-sweep", s) for s in edit_sweep(fam_keep, fam_ctl)]
     scen += [("MC_SchedXfer_ageignored.cfg:ResultAsOfRead", s) for s in with_every_age(teeth)]
     # transparent-fault variants (slow / duplicated replies) of a sample
     base = [s for _, s in scen]
@@ -630,6 +713,8 @@ def main(tier: str, replay: str | None) -> None:
                           "enumerated_total": n_enum_total, "enumerated_run": len(enum),
                           "enumerated_with_ageing_total": n_enum_age_total, "enumerated_with_ageing_run": len(enum_age),
                           "age_sweep": sum(1 for o, _ in runs if o == "age-sweep"),
+                          "edit_sweep": sum(1 for o, _ in runs if o == "edit-sweep"),
+                          "edit_sweep_families": {"first_fragment_unchanged": fam_keep, "controls": fam_ctl, "search": fam_hist},
                           "elapsed_times_s": AGES, "ageings_given_an_elapsed_time": n_aged,
                           "transparent_variants": sum(1 for o, _ in runs if o == "transparent")},
             "events_recorded": n_events,
